@@ -586,7 +586,7 @@ caf_write_header (SF_PRIVATE *psf, int calc_length)
 	DESC_CHUNK desc ;
 	sf_count_t current ;
 	uint32_t uk ;
-	int subformat, append_free_block = SF_TRUE ;
+	int subformat, append_free_block = SF_TRUE, has_data = SF_FALSE ;
 
 	if ((pcaf = psf->container_data) == NULL)
 		return SFE_INTERNAL ;
@@ -594,6 +594,9 @@ caf_write_header (SF_PRIVATE *psf, int calc_length)
 	memset (&desc, 0, sizeof (desc)) ;
 
 	current = psf_ftell (psf) ;
+
+	if (current > psf->dataoffset)
+		has_data = SF_TRUE ;
 
 	if (calc_length)
 	{	psf->filelength = psf_get_filelen (psf) ;
@@ -751,10 +754,20 @@ caf_write_header (SF_PRIVATE *psf, int calc_length)
 		sf_count_t free_len = 0x1000 - psf->header.indx - 16 - 12 ;
 		while (free_len < 0)
 			free_len += 0x1000 ;
-		psf_binheader_writef (psf, "Em8z", BHWm (free_MARKER), BHW8 (free_len), BHWz (free_len)) ;
+		/* Once the audio data is in place the free chunk fills up to where it starts. */
+		if (has_data)
+			free_len = psf->dataoffset - psf->header.indx - 16 - 12 ;
+		if (free_len >= 0)
+			psf_binheader_writef (psf, "Em8z", BHWm (free_MARKER), BHW8 (free_len), BHWz (free_len)) ;
 		} ;
 
 	psf_binheader_writef (psf, "Em84", BHWm (data_MARKER), BHW8 (psf->datalength + 4), BHW4 (0)) ;
+
+	/* The header must end where the audio data starts : never write a header of another length over existing data. */
+	if (has_data && psf->dataoffset != psf->header.indx)
+	{	psf_log_printf (psf, "Oooops : has_data && psf->dataoffset != psf->header.indx\n") ;
+		return psf->error = SFE_INTERNAL ;
+		} ;
 
 	psf_fwrite (psf->header.ptr, psf->header.indx, 1, psf) ;
 	if (psf->error)
